@@ -243,12 +243,17 @@ func runDriver(sr scenarioRunner, args map[string]string) {
 			e := NewEnv(mode, eseed+int64(k), strategy, nil, st, false, sr.poll...)
 			evs := sr.run(st.Executions, sc, e)
 			if e.Infra != "" {
-				st.Infra = append(st.Infra, fmt.Sprintf("exec %d: %s", st.Executions, e.Infra))
-				w.WriteExec(evs)
-				w.Close()
-				st.Events = w.Lines
-				st.write(out, t0)
-				fatalf("infrastructure failure: %s", e.Infra)
+				// this execution could not be controlled (e.g. a goroutine spinning without reaching a hook): it is
+				// abandoned and not validated; too many of them make the whole run an infrastructure failure
+				st.Abandoned = append(st.Abandoned, fmt.Sprintf("exec %d: %s", st.Executions, e.Infra))
+				if len(st.Abandoned) > 5+n*reps/10 {
+					st.Infra = st.Abandoned
+					w.Close()
+					st.Events = w.Lines
+					st.write(out, t0)
+					fatalf("infrastructure failure: %s", e.Infra)
+				}
+				continue
 			}
 			line := w.Lines + 1
 			w.WriteExec(evs)
